@@ -822,6 +822,21 @@ pub fn c03(ctx: &mut Ctx) -> String {
         case["collect"] = json!(format!("T{}", iters));
         case_solve(ctx, &case);
     }
+    // chance nodes on the multi-threaded frontier, an infoset straddling them: the rate is claimed
+    // for every thread count, and what the rate theorems are about is the model's run
+    for i in 0..(if ctx.thorough { 120u64 } else { 20 }) {
+        if ctx.out_of_time() {
+            break;
+        }
+        let t = coins_behind_choice(&mut ctx.rng);
+        ctx.stat("family_coins_behind_choice");
+        let (_, params) = Params::presets()[(i % 5) as usize];
+        let threads = *ctx.rng.pick(&[2usize, 2, 3]);
+        let iters = if i % 4 == 3 { 3000 } else { *ctx.rng.pick(&[2u64, 5, 12, 30]) };
+        let cfg = Cfg { method: "F".into(), params, iters, thr: 0.0, threads, target: None, seed: 0 };
+        let asserts: &[&str] = if iters <= 30 { &["rate", "corr"] } else { &["rate"] };
+        case_solve(ctx, &solve_case(&t, &cfg, asserts));
+    }
     // regret tends to zero: mean relative regret per budget must decrease along the grid
     let mut means = Vec::new();
     for tt in grid.iter().chain([20_000u64, 100_000].iter()) {
@@ -902,6 +917,22 @@ pub fn c04(ctx: &mut Ctx) -> String {
         case_solve(ctx, &solve_case(&t, &cfg, &["sampled_rate"]));
         // and the same draws through the model the pathwise theorems are about (short budget)
         let cfg = Cfg { iters: 25, ..cfg };
+        case_solve(ctx, &solve_case(&t, &cfg, &["corr"]));
+    }
+    // a leaf (or a coin) left on the multi-threaded frontier: its payoff goes through the cache
+    for i in 0..(if ctx.thorough { 120u64 } else { 24 }) {
+        if ctx.out_of_time() {
+            break;
+        }
+        let t = if i % 3 == 2 { coins_behind_choice(&mut ctx.rng) } else { early_exit(&mut ctx.rng) };
+        let method = if i % 2 == 0 { "E" } else { "S" };
+        let (_, params) = Params::presets()[((i / 2) % 5) as usize];
+        let seed = ctx.rng.next() >> 12;
+        let threads = *ctx.rng.pick(&[2usize, 2, 3]);
+        ctx.stat("family_leaf_on_the_frontier");
+        let cfg = Cfg { method: method.into(), params, iters: t_hi, thr: 0.0, threads, target: None, seed };
+        case_solve(ctx, &solve_case(&t, &cfg, &["sampled_rate"]));
+        let cfg = Cfg { iters: *ctx.rng.pick(&[4u64, 12, 25]), ..cfg };
         case_solve(ctx, &solve_case(&t, &cfg, &["corr"]));
     }
     // repeated matrix games: a player's sampled tree is wide at every level, so with several
@@ -1097,6 +1128,15 @@ fn threads_check(ctx: &mut Ctx, methods: &[&str]) {
             threads = *ctx.rng.pick(&[2usize, 2, 3]);
             iters = *ctx.rng.pick(&[2u64, 3, 4, 6]);
             force_default_target = i % 12 == 7;
+        }
+        if i % 12 == 1 {
+            // a leaf or a coin still in the queue when the frontier walk stops: terminals and chance
+            // nodes become tasks, their payoffs go through the cache
+            t = if (i / 12) % 2 == 0 { early_exit(&mut ctx.rng) } else { coins_behind_choice(&mut ctx.rng) };
+            fam = "leaf-on-the-frontier";
+            threads = *ctx.rng.pick(&[2usize, 2, 3]);
+            iters = *ctx.rng.pick(&[2u64, 3, 4, 6]);
+            force_default_target = true;
         }
         let mut exact_zero = false;
         if i % 12 == 3 {
@@ -1876,6 +1916,10 @@ pub fn c12(ctx: &mut Ctx) -> String {
         let case = json!({"op": "cli-shift", "tree": t.to_json(), "nseed": ctx.rng.next() >> 12, "shift": c,
             "discount": *ctx.rng.pick(&["vanilla", "lcfr", "cfr-plus", "dcfr", "dcfr-prune"]), "t": *ctx.rng.pick(&[1u64, 3, 10])});
         crate::cli::case_shift(ctx, &case);
+        // and single-outcome chance nodes inserted into a file whose interior nodes carry outcomes
+        let case = json!({"op": "cli-degenerate", "tree": t.to_json(), "nseed": ctx.rng.next() >> 12,
+            "discount": *ctx.rng.pick(&["vanilla", "lcfr", "cfr-plus", "dcfr", "dcfr-prune"]), "t": *ctx.rng.pick(&[1u64, 3, 10])});
+        crate::cli::case_degenerate_cli(ctx, &case);
     }
     "metamorphic pairs on the implementation: games x {rescale chance weights by positive constants, insert single-outcome chance and single-action decision nodes, injective renaming of infosets / actions / chance infosets, payoff scale c > 0 (presets), payoff shift, player swap with negated payoffs} x profiles (evaluation) x Full solves with budgets 0..30 (strategies mapped back, bounds scaled / swapped)".to_string()
 }
